@@ -267,6 +267,20 @@ Outcome World::apply(const Op& op)
             add_waveform(s, v2);
             tracks.at((size_t)I(0)).update(s);
         }
+        else if (f == "update_tag")
+        {
+            // update from example snapshot I(1) carrying the path of tag I(2): with the tag of another live track the UNIQUE(path)
+            // constraint makes a statement of the call fail by itself
+            auto s = example_snapshot((int)I(1), (int)I(2));
+            add_waveform(s, v2);
+            tracks.at((size_t)I(0)).update(s);
+        }
+        else if (f == "create_track_tag")
+        {
+            auto s = example_snapshot((int)I(0), (int)I(1));
+            add_waveform(s, v2);
+            tracks.push_back(db.create_track(s));
+        }
         else if (f == "remove_track") db.remove_track(tracks.at((size_t)I(0)));
         else if (f == "create_root") crates.push_back(db.create_root_crate(S(0)));
         else if (f == "create_root_after") crates.push_back(db.create_root_crate_after(S(0), crates.at((size_t)I(0))));
